@@ -967,6 +967,8 @@ static int ec_glob(char *loc, char *cmd, char *arg, char *txt)
 		strcpy(loc, "%");
 	if (ex_region(loc, &beg, &end))
 		return 1;
+	if (xgdep >= 7)		/* ln_glob[] has one bit for each level */
+		return 1;
 	not = strchr(cmd, '!') || cmd[0] == 'v';
 	pat = re_read(&s);
 	if (pat && pat[0])
